@@ -279,6 +279,19 @@ def mixed_keys_case(r, ctx, i):
         if t_sorted != t_plain:
             ctx.violation(case, {'what': 'keys that cannot be sorted are not written in insertion order', 'sorted_text': t_sorted[:300], 'insertion_text': t_plain[:300]}, None)
             continue
+        # a mapping whose keys cannot be sorted must not switch sorting off for what is represented after it (a sibling, a
+        # later document): the text of a sortable mapping is independent of its insertion order there as well
+        ks = ['k%02d' % j for j in range(12)]
+        a_ord, b_ord = list(ks), list(ks)
+        r.shuffle(a_ord)
+        r.shuffle(b_ord)
+        sa, sb = {x: 1 for x in a_ord}, {x: 1 for x in b_ord}
+        ctx.stat('sort_after_unsortable_checks')
+        if dump([d, sa, {'n': sa}], dname, {}) != dump([d, sb, {'n': sb}], dname, {}):
+            ctx.violation(case, {'what': 'after a mapping with unsortable keys, a later mapping in the same document is written in insertion order although sort_keys is on',
+                                 'text': dump([d, sa], dname, {})[:400]}, None)
+        if yaml.dump_all([d, sa], Dumper=getattr(yaml, dname)) != yaml.dump_all([d, sb], Dumper=getattr(yaml, dname)):
+            ctx.violation(case, {'what': 'after a document with unsortable keys, a later document of the same dump_all is written in insertion order although sort_keys is on'}, None)
         back = yaml.load(t_sorted, Loader=getattr(yaml, lname))
         t2 = dump(back, dname, {}, sort_keys=True)
         if t2 != t_sorted:
